@@ -10,6 +10,14 @@ must return the values of the FULL native computation of a freshly built model a
 statement's own oracle), on the clip of the CURRENT request, and (history.run_history) what a freshly built model
 returns for the same request and settings.
 
+Round 3: the ENTRY POINT is a coordinate of the request.  Every request is evaluated through model(), model_contrib()
+(one spectrum per contribution) or model_full_contrib() (one per component of every contribution); the models carry two
+contributions (AbsorptionContribution with two molecules on different grids, RayleighContribution); every returned
+spectrum must equal the same spectrum of the full native computation (same entry point, freshly built model) at the
+points computed, the returned spectra must be the ones GridHistory!HPartsOf names for the entry point, and the object
+must serve the next request as if nothing had happened -- also after a request that is REFUSED (no native point in
+reach of the observation) half-way through a per-component evaluation.
+
 Every model object OWNS its cross-section objects: they are put into the OpacityCache singleton through its public
 API (clear_cache / add_opacity) for that object's evaluations only, so that neither the fresh reference nor the
 full-grid reference shares any state with the long-lived object.
@@ -31,6 +39,12 @@ TOL = 10                  # ... and accepted up to 1e-12
 EXP_M10 = math.exp(-10.0)
 AFFINE = {'U': (560, 20), 'G': (200, 25)}          # wavenumber = offset + scale * coordinate (integers)
 KINDS = ('emission', 'direct', 'transmission')
+ENTRIES = ('model', 'contrib', 'full')
+# binding of GridHistory!HContribs / HComps to the fixture: contribution "abs" = AbsorptionContribution whose components 1, 2
+# are the molecules H2O (native grid) and CH4 (coarser grid); "ray" = RayleighContribution, whose per-gas components all
+# realise the spec's scatterer column 3 (a cross-section that is a function of the wavenumber alone)
+CONTRIB_OF = {'Absorption': 'abs', 'Rayleigh': 'ray'}
+MOLECULE_COMP = {'H2O': 1, 'CH4': 2}
 T_VALUES = {'transmission': [1000.0, 700.0, 1400.0], 'emission': [1500.0, 1250.0, 1800.0], 'direct': [1500.0, 1250.0, 1800.0]}
 # (the slant paths of a transit are ~50 times longer than the vertical ones)
 MIX_VALUES = {'transmission': [6e-6, 2e-6, 1.2e-5], 'emission': [1e-4, 3e-5, 2.5e-4], 'direct': [1e-4, 3e-5, 2.5e-4]}
@@ -64,6 +78,12 @@ class Alphabet:
         self.clips.update({i + 1: tuple(c) for i, c in enumerate(rec['clips'])})
         self.inner = {0: (1, len(self.nat_i))}
         self.inner.update({i + 1: tuple(c) for i, c in enumerate(rec['inner'])})
+        self.refused = set(rec.get('refused', []))
+        self.comps = {c['name']: frozenset(c['comps']) for c in rec['contribs']}
+        self.parts = {e: frozenset(frozenset(x) for x in ps) for e, ps in rec['parts'].items()}
+        if set(self.parts) != set(ENTRIES) or set(self.comps) != set(CONTRIB_OF.values()) or not self.refused:
+            raise Machinery('alphabet %s of MC_GridHistory: entry points %r, contributions %r, refused requests %r' % (
+                self.name, sorted(self.parts), sorted(self.comps), sorted(self.refused)))
         self.collide = {}
         for key in ('samesize', 'samefirst', 'sameends'):
             for a, b in rec[key]:
@@ -71,9 +91,24 @@ class Alphabet:
         if not rec['samesize'] or not rec['samefirst'] or not rec['sameends']:
             raise Machinery('alphabet %s of MC_GridHistory has no pair of requests colliding on size / first point / end points' % self.name)
 
+    def compset(self, contrib=None, comp=None):
+        """the spec's component set of a returned spectrum (None: the spectrum of model()); frozenset({0}): unknown"""
+        if contrib is None:
+            return frozenset().union(*self.comps.values())
+        c = CONTRIB_OF.get(contrib)
+        if c is None:
+            return frozenset({0})
+        if comp is None:
+            return self.comps[c]
+        if c == 'abs':
+            return frozenset({MOLECULE_COMP.get(comp, 0)})
+        return self.comps[c]
+
     def relation(self, prev, w):
         if prev is None:
             return 'first'
+        if prev in self.refused:
+            return 'after-refused'
         if prev == w:
             return 'same-request'
         c = self.collide.get((prev, w))
@@ -114,7 +149,7 @@ class Holder:
         from taurex.model import EmissionModel, DirectImageModel, TransmissionModel
         from taurex.chemistry import TaurexChemistry, ConstantGas
         from taurex.temperature import NPoint, Isothermal
-        from taurex.contributions import AbsorptionContribution
+        from taurex.contributions import AbsorptionContribution, RayleighContribution
         from taurex.planet import Planet
         from taurex.stellar import BlackbodyStar
         from taurex.cache import GlobalCache
@@ -122,6 +157,7 @@ class Holder:
         self.alpha, self.kind = alpha, kind
         self.objs = tables(alpha)
         self.prev = None            # id of the request of the previous evaluation
+        self.prev_entry = ''
         self.trail = []
         install(self.objs)
         try:
@@ -138,6 +174,7 @@ class Holder:
             else:
                 m = TransmissionModel(**kw)
             m.add_contribution(AbsorptionContribution())
+            m.add_contribution(RayleighContribution())
             m.build()
             self.m = m
         finally:
@@ -149,18 +186,59 @@ class Holder:
     def set_mix(self, mix):
         self.m['H2O'] = mix
 
-    def evaluate(self, win):
+    def evaluate(self, win, entry='model'):
+        """the request through an entry point of the model -> Result (nothing the implementation returns makes this raise)"""
+        f = {'model': self.m.model, 'contrib': self.m.model_contrib, 'full': self.m.model_full_contrib}[entry]
         install(self.objs)
         try:
             if win.oc is None:
-                g, s, tau, _ = self.m.model()
+                r = f()
             elif win.cut:
-                g, s, tau, _ = self.m.model(wngrid=np.array(win.oc, dtype=float))
+                r = f(wngrid=np.array(win.oc, dtype=float))
             else:
-                g, s, tau, _ = self.m.model(wngrid=np.array(win.oc, dtype=float), cutoff_grid=False)
+                r = f(wngrid=np.array(win.oc, dtype=float), cutoff_grid=False)
         finally:
             install([])
-        return np.array(g, dtype=float), np.array(s, dtype=float), np.array(tau, dtype=float)
+        return Result(self.alpha, entry, r)
+
+
+def _arr(x):
+    try:
+        a = np.array(x, dtype=float)
+    except Exception:
+        a = np.full((0,), np.nan)
+    return a
+
+
+class Result:
+    """what an entry point returned: the grid and the spectra [(label, component set of the spec, spectrum, layer array)]"""
+
+    def __init__(self, alpha, entry, r):
+        self.entry, self.parts, self.malformed = entry, [], ''
+        try:
+            self.grid = _arr(r[0])
+            if entry == 'model':
+                self.parts.append(('all', alpha.compset(), _arr(r[1]), _arr(r[2])))
+            elif entry == 'contrib':
+                for name, v in r[1].items():
+                    self.parts.append((str(name), alpha.compset(str(name)), _arr(v[0]), _arr(v[1])))
+            else:
+                for name, lst in r[1].items():
+                    for v in lst:
+                        self.parts.append(('%s:%s' % (name, v[0]), alpha.compset(str(name), str(v[0])), _arr(v[1]), _arr(v[2])))
+        except Exception as ex:
+            self.malformed = '%s returned %.120r (%s: %s)' % (entry, r, type(ex).__name__, ex)
+            if not hasattr(self, 'grid'):
+                self.grid = np.full((0,), np.nan)
+        if self.grid.ndim != 1:
+            self.malformed = self.malformed or 'returned grid of shape %r' % (self.grid.shape,)
+            self.grid = self.grid.ravel()
+
+    labels = property(lambda self: [p[0] for p in self.parts])
+    got = property(lambda self: sorted({tuple(sorted(p[1])) for p in self.parts}))
+
+    def observed(self):
+        return dict(grid=self.grid, spectra={p[0]: [p[2], p[3]] for p in self.parts}, malformed=self.malformed)
 
 
 def harness_fault(ex):
@@ -178,114 +256,184 @@ class Fixture:
         self.nrefs = 0
         self.fresh_grids = {}
         self.inexact = 0
+        self.count = {}           # (entry point, relation to the previous entry point) -> evaluations judged in the replays
 
-    def fresh_range(self, alpha, kind, win):
-        """index range of the grid a freshly built model returns for the request (it does not depend on T, mix)"""
-        key = (alpha.name, kind, win.w)
+    def fresh_range(self, alpha, kind, win, entry='model'):
+        """index range of the grid a freshly built model returns for the request through the entry point (it does not
+        depend on T, mix)"""
+        key = (alpha.name, kind, win.w, entry)
         if key not in self.fresh_grids:
-            g = Holder(alpha, kind, T_VALUES[kind][0], MIX_VALUES[kind][0]).evaluate(win)[0]
+            try:
+                g = Holder(alpha, kind, T_VALUES[kind][0], MIX_VALUES[kind][0]).evaluate(win, entry).grid
+            except Exception as ex:
+                if isinstance(ex, Machinery) or harness_fault(ex):
+                    raise
+                g = np.zeros(0)
             lo = int(np.searchsorted(alpha.nat, g[0])) + 1 if len(g) else -1
             ok = len(g) > 0 and lo + len(g) - 1 <= len(alpha.nat) and np.array_equal(g, alpha.nat[lo - 1:lo - 1 + len(g)])
             self.fresh_grids[key] = (lo, lo + len(g) - 1) if ok else (-1, -1)
         return self.fresh_grids[key]
 
-    def full(self, alpha, kind, T, mix):
-        """the full native computation of a freshly built model (never evaluated on anything else)"""
-        key = (alpha.name, kind, T, mix)
+    def full(self, alpha, kind, T, mix, entry='model'):
+        """the full native computation of a freshly built model through the entry point (never evaluated otherwise)"""
+        key = (alpha.name, kind, T, mix, entry)
         if key not in self.refs:
             h = Holder(alpha, kind, T, mix)
-            g, s, tau = h.evaluate(alpha.wins[0])
+            res = h.evaluate(alpha.wins[0], entry)
+            g = res.grid
             if not np.array_equal(g, alpha.nat):
                 self.ctx.verdict('native_grid_is_longest', False, cls='hist:%s:%s' % (kind, alpha.name),
-                                 detail='the full grid of a fresh model has %d points, the longest molecule grid %d' % (len(g), len(alpha.nat)),
-                                 vector=dict(kind='hfull', alphabet=alpha.name, model=kind, T=T, mix=mix))
-            # the fixtures stay outside the licensed exp(-10) cut-off: no layer is that dark at any wavenumber
-            if kind == 'transmission':
-                thin = bool(tau.size) and float(np.min(tau)) > 1.5 * EXP_M10
-            else:
-                c = h.m.contribution_list[0]
-                col = np.sum(np.asarray(c.sigma_xsec) * (np.asarray(h.m.densityProfile) * np.asarray(h.m.deltaz))[:, None], axis=0)
-                thin = bool(col.size) and float(np.max(col)) < 9.0
-            if not thin:
-                self.not_thin.append(key)
-            self.refs[key] = (g, s, tau)
+                                 detail='the full grid of a fresh model (%s) has %d points, the longest molecule grid %d' % (entry, len(g), len(alpha.nat)),
+                                 vector=dict(kind='hfull', alphabet=alpha.name, model=kind, T=T, mix=mix, entry=entry))
+            if entry == 'model' and res.parts:
+                # the fixtures stay outside the licensed exp(-10) cut-off: no layer is that dark at any wavenumber
+                tau = res.parts[0][3]
+                try:
+                    if kind == 'transmission':
+                        thin = bool(tau.size) and float(np.min(tau)) > 1.5 * EXP_M10
+                    else:
+                        col = 0.0            # (what model() left in the contributions: their opacities on the full grid)
+                        for c in h.m.contribution_list:
+                            col = col + np.sum(np.asarray(c.sigma_xsec) * (np.asarray(h.m.densityProfile) * np.asarray(h.m.deltaz))[:, None], axis=0)
+                        thin = bool(np.size(col)) and float(np.max(col)) < 9.0
+                except Exception as ex:
+                    if harness_fault(ex):
+                        raise
+                    thin = True               # (the implementation cannot prepare its contributions: reported by the evaluations)
+                if not thin:
+                    self.not_thin.append(key)
+            self.refs[key] = res
             self.nrefs += 1
         return self.refs[key]
 
     def compare(self, alpha, kind, T, mix, win, res):
-        """restricted result vs the full native computation at the same points -> (lo, hi, gdev, dev, tdev, text)"""
-        g, s, tau = res
-        gf, sf, tf = self.full(alpha, kind, T, mix)
+        """restricted result vs the full native computation (same entry point) at the same points
+        -> (lo, hi, gdev, dev, tdev, text); every returned spectrum is compared, the worst one is reported"""
+        g = res.grid
+        ref = self.full(alpha, kind, T, mix, res.entry)
         n = len(g)
-        lo = int(np.searchsorted(alpha.nat, g[0])) + 1 if n else -1
-        if n == 0 or lo + n - 1 > len(alpha.nat) or s.shape != (n,) or tau.ndim != 2 or tau.shape[1] != n \
-                or not (np.all(np.isfinite(s)) and np.all(np.isfinite(tau)) and np.all(np.isfinite(g))):
-            return -1, -1, CAP, CAP, CAP, 'returned grid %r, spectrum of shape %r, layer array of shape %r' % (g.tolist()[:6], s.shape, tau.shape)
+        lo = int(np.searchsorted(alpha.nat, g[0])) + 1 if n and np.isfinite(g[0]) else -1
+        bad = res.malformed
+        if not bad and not res.parts:
+            bad = 'no spectrum returned'
+        if not bad and (n == 0 or lo + n - 1 > len(alpha.nat) or not np.all(np.isfinite(g))):
+            bad = 'returned grid %r' % (g.tolist()[:6],)
+        if not bad:
+            for label, _, s, tau in res.parts:
+                if s.shape != (n,) or tau.ndim != 2 or tau.shape[1] != n or not (np.all(np.isfinite(s)) and np.all(np.isfinite(tau))):
+                    bad = 'returned grid %r, spectrum %s of shape %r, layer array of shape %r (or not finite)' % (g.tolist()[:6], label, s.shape, tau.shape)
+                    break
+        if bad:
+            return -1, -1, CAP, CAP, CAP, bad
         hi = lo + n - 1
         sel = slice(lo - 1, hi)
         gdev = float(np.max(np.abs(g - alpha.nat[sel])))
         if gdev != 0.0:
-            return -1, -1, int(min(CAP, math.ceil(gdev * 1e6))), CAP, CAP, 'returned grid %r is not native[%d:%d]' % (g.tolist()[:6], lo - 1, hi)
-        ref = sf[sel]
-        rel = np.abs(s - ref) / np.maximum(np.abs(ref), 1e-300)
-        k = int(np.argmax(rel))
-        dev = int(min(CAP, math.ceil(float(rel[k]) / DEV_UNIT)))
-        tdev = int(min(CAP, math.ceil(float(np.max(np.abs(tau - tf[:, sel]))) / DEV_UNIT)))
-        return lo, hi, 0, dev, tdev, 'largest difference at %g cm-1: restricted %r, full native computation %r (relative %.3g; layer array %.3g)' % (
-            g[k], float(s[k]), float(ref[k]), float(rel[k]), float(np.max(np.abs(tau - tf[:, sel]))))
+            k = int(np.argmax(np.abs(g - alpha.nat[sel])))
+            return -1, -1, int(min(CAP, math.ceil(gdev * 1e6))), CAP, CAP, \
+                'returned grid %r is not a part of the native grid (%g cm-1 is not a native point; native[%d:%d] = %r ...)' % (
+                    g.tolist()[:6], g[k], lo - 1, hi, alpha.nat[sel].tolist()[:4])
+        if res.labels != ref.labels:
+            return lo, hi, 0, CAP, CAP, 'returned the spectra %r, the full native computation of a fresh model returns %r' % (res.labels, ref.labels)
+        worst = (-1.0, -1.0, '')
+        for (label, _, s, tau), (_, _, sf, tf) in zip(res.parts, ref.parts):
+            if sf.shape != (len(alpha.nat),) or tf.ndim != 2 or tf.shape[1] != len(alpha.nat) or tf.shape[0] != tau.shape[0]:
+                return lo, hi, 0, CAP, CAP, 'full native computation of %s: spectrum of shape %r, layer array %r' % (label, sf.shape, tf.shape)
+            r = sf[sel]
+            rel = np.abs(s - r) / np.maximum(np.abs(r), 1e-300)
+            k = int(np.argmax(rel))
+            td = float(np.max(np.abs(tau - tf[:, sel])))
+            if max(float(rel[k]), td) > max(worst[0], worst[1]) or worst[0] < 0:
+                worst = (float(rel[k]), td, '%s: largest difference at %g cm-1: restricted %r, full native computation %r (relative %.3g; layer array %.3g)' % (
+                    label, g[k], float(s[k]), float(r[k]), float(rel[k]), td))
+        dev = int(min(CAP, math.ceil(worst[0] / DEV_UNIT)))
+        tdev = int(min(CAP, math.ceil(worst[1] / DEV_UNIT)))
+        return lo, hi, 0, dev, tdev, worst[2]
 
 
 # ----------------------------------------------------------------------------
 # binding C: behaviours of EX_GridHistory replayed on one long-lived model each
 # ----------------------------------------------------------------------------
 
+def entry_relation(prev_entry, entry):
+    if not prev_entry or prev_entry == entry:
+        return entry
+    return '%s-after-%s' % (entry, prev_entry)
+
+
 def replay_behaviour(fx, alpha, kind, T, mix, evals, clause='history_equals_full'):
-    """evals: [{'w': request id, 'grid': coordinates the evaluation must return}] exported by TLC"""
+    """evals: [{'w': request id, 'e': entry point, 'grid': coordinates the evaluation must return, 'parts': the component
+    sets of the spectra it must return, 'refused': no native point in reach}] exported by TLC"""
     ctx = fx.ctx
     h = Holder(alpha, kind, T, mix)
-    prev, trail = None, []
+    prev, prev_entry, trail = None, '', []
     for step in evals:
         win = alpha.wins[step['w']]
+        entry = step.get('e', 'model')
         rel = alpha.relation(prev, step['w'])
-        trail.append(win.label)
-        cls = 'hbeh:%s:%s:%s' % (kind, alpha.name, rel)
+        trail.append(win.label if entry == 'model' else '%s(%s)' % (ENTRY_NAME[entry], win.label))
+        cls = 'hbeh:%s:%s:%s:%s' % (kind, alpha.name, rel, entry_relation(prev_entry, entry))
         vec = dict(kind='hbeh', alphabet=alpha.name, model=kind, T=T, mix=mix, evals=evals)
         expect = np.array([alpha.off + alpha.sc * x for x in step['grid']], dtype=float)
         try:
-            res = h.evaluate(win)
+            res = h.evaluate(win, entry)
         except Exception as ex:
             if isinstance(ex, Machinery) or harness_fault(ex):
                 raise Machinery('behaviour replay failed inside the harness: %r' % (ex,))
+            if step.get('refused'):
+                # the statement does not say how a request without a native point in reach is answered; whatever the
+                # answer, the object must serve the following requests as if it had not been asked
+                trail[-1] += ':refused'
+                prev, prev_entry = step['w'], entry
+                continue
             ctx.verdict(clause, False, cls=cls, detail='%s model after %s: evaluation raised %s: %s' % (kind, ' > '.join(trail), type(ex).__name__, ex), vector=vec)
             return
+        if step.get('refused'):
+            trail[-1] += ':refused'
+            prev, prev_entry = step['w'], entry
+            continue
+        fx.count[(entry, 'after-refused' if rel == 'after-refused' else entry_relation(prev_entry, entry))] = \
+            fx.count.get((entry, 'after-refused' if rel == 'after-refused' else entry_relation(prev_entry, entry)), 0) + 1
         lo, hi, gdev, dev, tdev, text = fx.compare(alpha, kind, T, mix, win, res)
         # the statement does not prescribe the clip margin: the computed grid must be a contiguous part of the native
         # grid covering the observation's own range, and the one a fresh model computes for the CURRENT request
-        flo, fhi = fx.fresh_range(alpha, kind, win)
+        flo, fhi = fx.fresh_range(alpha, kind, win, entry)
         ilo, ihi = alpha.inner[step['w']]
         ok_grid = lo >= 1 and (lo, hi) == (flo, fhi) and (ilo == 0 or (lo <= ilo and ihi <= hi)) and (win.cut or (lo, hi) == (1, len(alpha.nat)))
-        if not np.array_equal(res[0], expect):
+        if not np.array_equal(res.grid, expect):
             fx.inexact += 1                                        # not the documented clip Grid!GClip exported by TLC
         ctx.verdict('history_grid_is_clip_of_request', ok_grid, cls=cls,
                     detail='%s model after %s: returned grid %r; a fresh model computes native[%d:%d] for this request, the documented clip is %r'
-                           % (kind, ' > '.join(trail), res[0].tolist()[:8], flo - 1, fhi, expect.tolist()[:8]), vector=vec)
-        ctx.verdict(clause, ok_grid and dev <= TOL and tdev <= TOL, cls=cls,
-                    detail='%s model (T=%g, mix=%g) evaluated on %s: %s' % (kind, T, mix, ' > '.join(trail), text), vector=vec)
-        prev = step['w']
+                           % (kind, ' > '.join(trail), res.grid.tolist()[:8], flo - 1, fhi, expect.tolist()[:8]), vector=vec)
+        # the spectra returned are those GridHistory!HPartsOf names for the entry point (TLC's `parts`)
+        want = sorted(tuple(sorted(x)) for x in step.get('parts', [sorted(alpha.compset())]))
+        ok_parts = res.got == want and not res.malformed
+        ctx.verdict(clause, ok_grid and ok_parts and dev <= TOL and tdev <= TOL, cls=cls,
+                    detail='%s model (T=%g, mix=%g) evaluated on %s: %s' % (kind, T, mix, ' > '.join(trail),
+                           text if ok_parts else 'returned the spectra %r = component sets %r, expected %r; %s' % (res.labels, res.got, want, text)), vector=vec)
+        prev, prev_entry = step['w'], entry
+
+
+ENTRY_NAME = {'model': 'model', 'contrib': 'model_contrib', 'full': 'model_full_contrib'}
 
 
 # ----------------------------------------------------------------------------
-# binding B + Functional walks: settings = request, temperature, mixing ratio
+# binding B + Functional walks: settings = request, temperature, mixing ratio or entry point
 # ----------------------------------------------------------------------------
 
 class HistScenario(history.Scenario):
-    def __init__(self, name, fx, alpha, kind, wins):
-        self.name, self.fx, self.alpha, self.kind = name, fx, alpha, kind
-        self.dims = [[alpha.wins[w] for w in wins], list(T_VALUES[kind]), list(MIX_VALUES[kind])]
+    """third setting: the mixing ratio of H2O (`third='mix'`) or the entry point the request is evaluated through"""
+
+    def __init__(self, name, fx, alpha, kind, wins, third='mix'):
+        self.name, self.fx, self.alpha, self.kind, self.third = name, fx, alpha, kind, third
+        self.dims = [[alpha.wins[w] for w in wins], list(T_VALUES[kind]), list(MIX_VALUES[kind]) if third == 'mix' else list(ENTRIES)]
         self.evals = 0
 
+    def _mix(self, values):
+        return values[2] if self.third == 'mix' else MIX_VALUES[self.kind][0]
+
     def fresh(self, values):
-        h = Holder(self.alpha, self.kind, values[1], values[2])
+        h = Holder(self.alpha, self.kind, values[1], self._mix(values))
         h.cfg = list(values)
         h.init = [repr(v) for v in values]
         return h
@@ -295,34 +443,39 @@ class HistScenario(history.Scenario):
         h.trail.append('set%d=%r' % (d, value))
         if d == 1:
             h.set_T(value)
-        elif d == 2:
+        elif d == 2 and self.third == 'mix':
             h.set_mix(value)
 
     def observe(self, h):
-        win, T, mix = h.cfg
+        win, T, _ = h.cfg
+        mix = self._mix(h.cfg)
+        entry = 'model' if self.third == 'mix' else h.cfg[2]
         a = self.alpha
         h.trail.append('eval')
         vec = dict(history=self.name, init=list(h.init), trail=list(h.trail), hist_event=True)
         try:
-            res = h.evaluate(win)
+            res = h.evaluate(win, entry)
         except Exception as ex:
             if isinstance(ex, Machinery) or harness_fault(ex):
                 raise Machinery('history scenario failed inside the harness: %r\n%s' % (ex, ''.join(traceback.format_tb(ex.__traceback__)[-3:])))
             tb = traceback.extract_tb(ex.__traceback__)
             self.fx.ctx.verdict('evaluates_without_error', False, cls='%s:%s' % (self.name, a.relation(h.prev, win.w)),
                                 detail='%s: %s at %s:%s after %s' % (type(ex).__name__, ex, os.path.basename(tb[-1].filename), tb[-1].name, ' '.join(h.trail)), vector=vec)
-            h.prev = win.w
+            h.prev, h.prev_entry = win.w, entry
             raise
         self.evals += 1
         lo, hi, gdev, dev, tdev, text = self.fx.compare(a, self.kind, T, mix, win, res)
         plo, phi = h.prev_range if h.prev is not None else (0, 0)
-        flo, fhi = self.fx.fresh_range(a, self.kind, win)
-        ev = dict(ev='heval', nat=a.nat_i, oc=win.oc or [], cut=1 if win.cut else 0, lo=lo, hi=hi, n=len(res[0]), gdev=gdev,
-                  dev=dev, tdev=tdev, tol=TOL, plo=plo, phi=phi, flo=flo, fhi=fhi)
+        flo, fhi = self.fx.fresh_range(a, self.kind, win, entry)
+        ev = dict(ev='heval', nat=a.nat_i, oc=win.oc or [], cut=1 if win.cut else 0, lo=lo, hi=hi, n=len(res.grid), gdev=gdev,
+                  dev=dev, tdev=tdev, tol=TOL, plo=plo, phi=phi, flo=flo, fhi=fhi,
+                  entry=entry, pentry=h.prev_entry, struct=[sorted(a.comps[c]) for c in ('abs', 'ray')],
+                  got=[list(x) for x in res.got] if not res.malformed else [[0]])
         h.prev_range = (flo, fhi)
-        self.fx.events.append((ev, self.name, '%s model (T=%g, mix=%g) on %s after %s: %s' % (self.kind, T, mix, win.label, ' '.join(h.trail[:-1]) or 'construction', text), vec))
-        h.prev = win.w
-        return dict(grid=res[0], spectrum=res[1], layers=res[2])
+        self.fx.events.append((ev, self.name, '%s model (T=%g, mix=%g) through %s on %s after %s: %s' % (
+            self.kind, T, mix, ENTRY_NAME[entry], win.label, ' '.join(h.trail[:-1]) or 'construction', text), vec))
+        h.prev, h.prev_entry = win.w, entry
+        return res.observed()
 
 
 def scenarios(fx, thorough=False):
@@ -331,16 +484,22 @@ def scenarios(fx, thorough=False):
     # request triples: [same size elsewhere, same start other length] / [full grid, between native points x2] /
     # [same end points other density, a grid passed with cutoff_grid=False]
     A, B, C = [1, 2, 3], [0, 5, 6], [1, 4, 7]
+    # third setting: the mixing ratio, or (":entries") the entry point model / model_contrib / model_full_contrib
     sc = [S('emission:U:same-size', fx, U, 'emission', A),
-          S('emission:G:full-between', fx, G, 'emission', B),
-          S('direct:G:same-size', fx, G, 'direct', A),
-          S('transmission:U:density', fx, U, 'transmission', C),
+          S('emission:G:full-between:entries', fx, G, 'emission', B, 'entry'),
+          S('direct:G:same-size:entries', fx, G, 'direct', A, 'entry'),
+          S('transmission:U:density:entries', fx, U, 'transmission', C, 'entry'),
           S('transmission:G:same-size', fx, G, 'transmission', A)]
     if thorough:
         sc += [S('emission:G:same-size', fx, G, 'emission', A),
                S('emission:U:density', fx, U, 'emission', C),
+               S('emission:U:same-size:entries', fx, U, 'emission', A, 'entry'),
                S('direct:U:full-between', fx, U, 'direct', B),
                S('direct:U:density', fx, U, 'direct', C),
                S('transmission:U:full-between', fx, U, 'transmission', B),
-               S('transmission:U:same-size', fx, U, 'transmission', A)]
+               S('transmission:U:same-size', fx, U, 'transmission', A),
+               S('transmission:G:same-size:entries', fx, G, 'transmission', A, 'entry'),
+               S('emission:G:full-between', fx, G, 'emission', B),
+               S('direct:G:same-size', fx, G, 'direct', A),
+               S('transmission:U:density', fx, U, 'transmission', C)]
     return sc
